@@ -6,6 +6,7 @@ Driver entries of the spinner model:
              the completion policy), write trace with thread tags, terminal line after every write, final
              program counters, how main left the block, spinner liveness at that moment;
 `c19.manual` {cfg, ops} -> per operation the stream writes it made and the error it raised.
+Both also answer `wf`: the deciders of the hypotheses of the theorems of Props/C19 on this configuration.
 -/
 namespace Clikit.Drv.C19
 open Lean Clikit.Drv Clikit.Spinner
@@ -104,6 +105,11 @@ def status (c : St) : String :=
   else if !enabledMain c && !enabledSpin c && (nextWake c).isNone then "deadlock"
   else "budget"
 
+/-- do the hypotheses of the theorems of Props/C19 (`CleanCfg`, an indicator value exists) hold for this
+configuration?  (`Props.C19.wf_decides`) -/
+def jWf (cfg : Cfg) : Json :=
+  Json.mkObj [("clean", .bool (cleanCfgB cfg)), ("has_values", .bool (hasValuesB cfg))]
+
 def handle (m : String) (j : Json) : Option (R Json) :=
   match m with
   | "c19.run" => some do
@@ -132,7 +138,8 @@ def handle (m : String) (j : Json) : Option (R Json) :=
         ("crashed", .bool c2.crashed),
         ("alive_at_exit", match a2 with | some b => .bool b | none => .null),
         ("status", .str (status c2)),
-        ("clock", jNat c2.clock)]
+        ("clock", jNat c2.clock),
+        ("wf", jWf cfg)]
   | "c19.manual" => some do
       let cfg ← cfgOf (← field j "cfg") []
       let ops ← (← fArr j "ops").toList.mapM (fun o => match o with
@@ -152,7 +159,8 @@ def handle (m : String) (j : Json) : Option (R Json) :=
       let outs := go MSt.init ops []
       let fin := mrun cfg ops MSt.init
       return Json.mkObj [("ops", .arr outs.toArray),
-                         ("lines", jStrs (linesAfter (fin.out.reverse.map (·.bytes))))]
+                         ("lines", jStrs (linesAfter (fin.out.reverse.map (·.bytes)))),
+                         ("wf", Json.mkObj [("has_values", .bool (hasValuesB cfg))])]
   | _ => none
 
 end Clikit.Drv.C19
